@@ -84,7 +84,7 @@ def observe_index(w: World):
 def norm_step(s):
     """A step is a dict: act, p, q, cell (kind, cid) or None, tree {path: cell} or None, exp (optional)."""
     return {"act": s["act"], "p": tuple(s.get("p") or ()), "q": tuple(s.get("q") or ()), "cell": tuple(s["cell"]) if s.get("cell") else None,
-            "tree": s.get("tree"), "exp": s.get("exp")}
+            "tree": s.get("tree"), "exp": s.get("exp"), "obs": s.get("obs", True)}
 
 
 def apply_action(w: World, ex, s, wd_before: dict, opts: dict):
@@ -167,6 +167,11 @@ def execute(w: World, ex, steps, opts: dict):
         idx, notes = observe_index(w)
         ev.update(h=dict(head), i=idx, w=dict(wd), notes=notes)
         ev["status_exc"] = None
+        if not s["obs"]:
+            # a step already observed in another execution of the same transition: act only
+            ev["rep"] = None
+            events.append(ev)
+            continue
         try:
             ev["rep"] = ex.status()
         except Exception as e:          # noqa: BLE001
